@@ -67,7 +67,11 @@ def conditions():
     SUBS = [("eqsub", ("var", "x"), "u", ("cmp", "==", ("attr", "u", "a"), ("attr", "y", "b"))),
             ("eqsub", ("var", "x"), "u", ("cmp", "<", ("attr", "u", "a"), ("attr", "y", "a"))),
             ("eqsub", ("var", "x"), "u", ("cmp", "<", ("attr", "u", "a"), ("const", 2))),
-            ("eqsub", ("var", "y"), "u", ("contains", ("attr", "u", "items"), ("attr", "x", "a")))]
+            ("eqsub", ("var", "y"), "u", ("contains", ("attr", "u", "items"), ("attr", "x", "a"))),
+            # the WHOLE condition of the nested query is a bare (possibly falsy) operand / its negation / a predicate
+            ("eqsub", ("var", "x"), "u", ("truth", ("attr", "u", "a"))),
+            ("eqsub", ("var", "x"), "u", ("truth", ("attr", "u", "b"))),
+            ("eqsub", ("var", "y"), "u", ("not", ("truth", ("attr", "u", "a"))))]
     for sq in SUBS:
         yield sq
         yield ("and", sq, A2[1])
